@@ -58,7 +58,7 @@ var ChannelEvents = fsm.Events{
 		return nil
 	}),
 
-	fsm.Event(datatransfer.DataReceived).FromAny().ToNoChange().
+	fsm.Event(datatransfer.DataReceived).FromAny().ToJustRecord().
 		Action(func(chst *internal.ChannelState, rcvdBlocksTotal int64) error {
 			if rcvdBlocksTotal > chst.ReceivedBlocksTotal {
 				chst.ReceivedBlocksTotal = rcvdBlocksTotal
@@ -119,22 +119,22 @@ var ChannelEvents = fsm.Events{
 			chst.AddLog("")
 			return nil
 		}),
-	fsm.Event(datatransfer.Disconnected).FromAny().ToNoChange().Action(func(chst *internal.ChannelState, err error) error {
+	fsm.Event(datatransfer.Disconnected).FromAny().ToJustRecord().Action(func(chst *internal.ChannelState, err error) error {
 		chst.Message = err.Error()
 		chst.AddLog("data transfer disconnected: %s", chst.Message)
 		return nil
 	}),
-	fsm.Event(datatransfer.SendDataError).FromAny().ToNoChange().Action(func(chst *internal.ChannelState, err error) error {
+	fsm.Event(datatransfer.SendDataError).FromAny().ToJustRecord().Action(func(chst *internal.ChannelState, err error) error {
 		chst.Message = err.Error()
 		chst.AddLog("data transfer send error: %s", chst.Message)
 		return nil
 	}),
-	fsm.Event(datatransfer.ReceiveDataError).FromAny().ToNoChange().Action(func(chst *internal.ChannelState, err error) error {
+	fsm.Event(datatransfer.ReceiveDataError).FromAny().ToJustRecord().Action(func(chst *internal.ChannelState, err error) error {
 		chst.Message = err.Error()
 		chst.AddLog("data transfer receive error: %s", chst.Message)
 		return nil
 	}),
-	fsm.Event(datatransfer.RequestCancelled).FromAny().ToNoChange().Action(func(chst *internal.ChannelState, err error) error {
+	fsm.Event(datatransfer.RequestCancelled).FromAny().ToJustRecord().Action(func(chst *internal.ChannelState, err error) error {
 		chst.Message = err.Error()
 		chst.AddLog("data transfer request cancelled: %s", chst.Message)
 		return nil
@@ -145,14 +145,14 @@ var ChannelEvents = fsm.Events{
 		return nil
 	}),
 
-	fsm.Event(datatransfer.NewVoucher).FromAny().ToNoChange().
+	fsm.Event(datatransfer.NewVoucher).FromAny().ToJustRecord().
 		Action(func(chst *internal.ChannelState, voucher datatransfer.TypedVoucher) error {
 			chst.Vouchers = append(chst.Vouchers, internal.EncodedVoucher{Type: voucher.Type, Voucher: internal.CborGenCompatibleNode{Node: voucher.Voucher}})
 			chst.AddLog("got new voucher")
 			return nil
 		}),
 
-	fsm.Event(datatransfer.NewVoucherResult).FromAny().ToNoChange().
+	fsm.Event(datatransfer.NewVoucherResult).FromAny().ToJustRecord().
 		Action(func(chst *internal.ChannelState, voucherResult datatransfer.TypedVoucher) error {
 			chst.VoucherResults = append(chst.VoucherResults,
 				internal.EncodedVoucherResult{Type: voucherResult.Type, VoucherResult: internal.CborGenCompatibleNode{Node: voucherResult.Voucher}})
